@@ -125,6 +125,9 @@ def truthy(v):
     if isinstance(ty, TRec):
         return z3.BoolVal(True)
     if isinstance(ty, TDict):
+        has_ = z3.simplify(ty.has(v.t))
+        if z3.is_K(has_) and z3.is_false(has_.arg(0)):
+            return z3.BoolVal(False)          # the empty dictionary literal
         k = fresh('k', ty.k.sort())
         return z3.Exists([k], z3.Select(ty.has(v.t), k))
     if isinstance(ty, TAbs):
@@ -804,6 +807,10 @@ class Evaluator:
         ctx.env.clear()
         ctx.env.update(saved)
         rt = TDict(dt.k, val.ty)
+        has_src = z3.simplify(dt.has(src.t))
+        if z3.is_K(has_src) and z3.is_false(has_src.arg(0)):
+            # a comprehension over the empty dictionary literal is the empty dictionary (of the value type the element expression has)
+            return V(rt, rt.mk(z3.K(dt.k.sort(), False), fresh('dflt', z3.ArraySort(dt.k.sort(), val.ty.sort()))))
         R = fresh('dcomp', rt.sort())
         cond = z3.And(*conds) if conds else z3.BoolVal(True)
         ctx.assume(z3.ForAll([e], z3.Select(rt.has(R), e) == z3.And(z3.Select(dt.has(src.t), e), cond)))
